@@ -457,6 +457,7 @@ func TestVerifC13Filters(t *testing.T) {
 		for i := 0; i < nreq; i++ {
 			var ctx *context.Context
 			var desc, class string
+			ctl := vfReqCtl{arm: func() {}, done: func() {}}
 			if vfIsMQTTKind(kindName) {
 				r := vfGenMQTTReq(rt)
 				ctx, desc, class = r.Context(), r.String(), r.Class()
@@ -469,15 +470,20 @@ func TestVerifC13Filters(t *testing.T) {
 						vf.Class("proxy-request-to " + mc)
 					}
 				}
-				c, ok := r.Context(env)
+				// the client may go away: context cancelled / past its deadline before or while being served
+				r.Ctx = vfGenReqCtx(rt, 8)
+				c, cl, ok := r.ContextCtl(env)
 				if !ok {
 					vf.Class("request-rejected-by-server")
 					continue
 				}
-				ctx, desc, class = c, r.String(), r.Class()
+				if r.Ctx != "" {
+					vf.Class("request-context=" + r.Ctx)
+				}
+				ctx, desc, class, ctl = c, r.String(), r.Class(), cl
 			}
 			var res string
-			p, txt, site, _ := vfRecoverRoot(func() { res = cur.Handle(ctx) })
+			p, txt, site, _ := vfRecoverRoot(func() { ctl.arm(); defer ctl.done(); res = cur.Handle(ctx) })
 			if p {
 				vf.Case(len(g.present) > 0, "handle|"+kindName+"|"+strings.Join(g.Present(), ",")+"|"+strings.Join(g.Bounds(), ",")+"|"+class, nil)
 				fail("Handle", txt, site, "\nrequest: "+desc)
